@@ -325,6 +325,26 @@ Definition pump_step (p : pumps) (x : pstep) : pumps :=
 
 Definition pump_run (p : pumps) (xs : list pstep) : pumps := fold_left pump_step xs p.
 
+(* The write loop across connections, with failures.  Each step the loop takes the next message offered
+   on r.Out and calls WriteMessage: WOk - it is on the wire; WFail - the write failed (connection reset
+   noticed by the writer, or a message that cannot be written at all, e.g. Type 0): the message is
+   DROPPED (not put back) and Dial returns nil, so the next message is written on the next connection. *)
+Inductive wres := WOk | WFail.
+Fixpoint writer_run (offered : list N) (rs : list wres) : list N * list N :=   (* (written, still offered) *)
+  match rs, offered with
+  | [], _ | _, [] => ([], offered)
+  | WOk :: rs', m :: r => let '(w, rest) := writer_run r rs' in (m :: w, rest)
+  | WFail :: rs', m :: r => writer_run r rs'
+  end.
+
+(* order-preserving sub-list *)
+Fixpoint is_subseq (a b : list N) : bool :=
+  match a, b with
+  | [], _ => true
+  | _ :: _, [] => false
+  | x :: a', y :: b' => if N.eqb x y then is_subseq a' b' else is_subseq a b'
+  end.
+
 (* The wrappers put further single-goroutine forwarders in front of / behind the two pumps:
    pkg/client: Send -> r.Out -> connection and connection -> r.In -> Receive;  pkg/status adds
    Receive -> Status;  rwc: hub -> RelayOut -> r.Out and r.In -> RelayIn -> hub;  file: r.In ->
